@@ -288,6 +288,10 @@ def nibabel_image_to_precomputed(img,
         prescaling_inter = proxy.inter
         proxy._slope = prescaling_slope * postscaling_slope
         proxy._inter = prescaling_inter * postscaling_slope + postscaling_inter
+        # The scaled values are usually provided as float64, but nibabel
+        # returns the stored data type if the resulting scaling is the identity
+        zero_index = tuple(0 for _ in shape)
+        input_dtype = proxy[zero_index].dtype
 
     # Transformations applied to the voxel values
     chunk_transformer = (
